@@ -98,6 +98,10 @@ PROPS.update({
     "C08": h2prop(["TurnModel.Props.C08"], ["m:bind", "m:cdata", "pdata", "state"], ["resp", "cdat", "topeer"],
                   ["chandata-invalid-number-emitted"]),
     "C19": h2prop(["TurnModel.Props.C19"], ["m:*"], ["resp"], ["response-wrong-source"]),
+    "C15": h2prop(["TurnModel.Props.C15"], ["*"], ["ev", "net"],
+                  ["allocation-count-mismatch", "sockets-left-after-close", "server-close-leaves-control-connections"],
+                  ["PARTIAL: goroutines and timers are ghost state in the model (one timer per entity, one reader goroutine per allocation); "
+                   "their real existence is observed only through the simnet open/close log and the synctest bubble draining at the end of every history"]),
     "C16": dict(h2prop(["TurnModel.Props.C16"],
                        ["m:connect", "m:cbind", "pconn", "pc2p", "pp2c", "pclosec", "pclosep", "adv", "cclose", "rerr", "close", "state"],
                        ["resp", "dial", "catt", "cclosed", "p2p", "p2c", "dclosed"], [],
@@ -160,6 +164,12 @@ MANIFEST_TEXT.update({
                "DESIGN.md §6 C07", "Lean 4 invariants + exact-expiry theorems + differential correspondence around every horizon"),
     "C08": _mt("chan_bijection invariant (numbers distinct, peers distinct, range) over all reachable states, conflict_400, conflict_iff, rejected_changes_nothing, rebind_no_conflict, emitted_numbers_valid.",
                "DESIGN.md §6 C08", "Lean 4 invariant by induction + differential correspondence"),
+    "C15": _mt("ledger_matches_live (no entity listed twice; count = live allocations), events_paired (over ANY history, created - deleted = 1 iff live: every prefix balances), "
+               "step_events_exact, teardown_complete for control-connection close / relay failure / server close, expiry_teardown, closed_server_empty; "
+               "tied by comparing the real EventHandler callbacks and the simulated network's socket open/close log with the model's derived events after every operation. "
+               "PARTIAL: goroutines/timers are ghost state.",
+               "DESIGN.md §6 C15", "Lean 4 conservation law by induction over histories + differential correspondence of lifecycle events and socket ledger",
+               "Partial: real goroutines/timers are observed via synctest only."),
     "C16": _mt("unbound_within_deadline invariant, deadline_closes, bind_success_inv (owner only, stream only, not bound before), bind_once, bind_reject_harmless, dupe_446, "
                "connect_fresh_id, pipe_identity; tied by TCP-relay histories (Connect / inbound connections / ConnectionBind right and wrong / pipes / closes / 29-31 s steps) replayed through the model. "
                "PARTIAL: io.Copy and TCP are the runtime's.",
